@@ -94,9 +94,14 @@ def gen_mix(rng, depth=0):
         for _ in range(k):
             hi = budget / (k + 0.5)
             t = rng.choice(["%d" % rng.randint(1, max(1, int(hi))), "%.2f" % rng.uniform(0.01, hi),
-                            "0.0", "0.001", "%.1f" % rng.uniform(0.1, hi)])
-            if rng.random() < 0.03:
+                            "0.0", "0.001", "%.1f" % rng.uniform(0.1, hi), "%.9f" % rng.uniform(0.0000001, hi),
+                            "%.7f" % rng.uniform(0.0000001, hi / 1000)])
+            r = rng.random()
+            if r < 0.03:
                 t = "70"
+            elif r < 0.08 and len(parts) == k - 1 and budget > 1:
+                # very unequal: leave the last component a remainder between 1e-9 and 1e-3 percent
+                t = ("%.9f" % (budget - 10 ** rng.uniform(-9, -3))).rstrip("0")
             parts.append((t, gen_child(rng, depth)))
             budget -= float(t)
         return (kind, parts, gen_child(rng, depth))
